@@ -366,22 +366,21 @@ def stratified_two_sample(
         tst_fun = stats[stat]
 
     thePvalue = {
-        'greater': lambda p: p + plus1/(reps+plus1),
-        'less': lambda p: 1 - (p + plus1/(reps+plus1)),
-        'two-sided': lambda p: 2 * np.min([p + plus1/(reps+plus1), 
-                                           1 - (p + plus1/(reps+plus1))])
+        'greater': lambda pUp, pDn: pUp + plus1/(reps+plus1),
+        'less': lambda pUp, pDn: pDn + plus1/(reps+plus1),
+        'two-sided': lambda pUp, pDn: 2 * np.min([0.5,
+                                                  pUp + plus1/(reps+plus1),
+                                                  pDn + plus1/(reps+plus1)])
     }
     observed_tst = tst_fun(response)
 
+    dist = np.empty(reps)
+    for i in range(reps):
+        dist[i] = tst_fun(permute_within_groups(
+            response, group, seed=prng))
+    pUp = np.sum(dist >= observed_tst) / (reps+plus1)
+    pDn = np.sum(dist <= observed_tst) / (reps+plus1)
     if keep_dist:
-        dist = np.empty(reps)
-        for i in range(reps):
-            dist[i] = tst_fun(permute_within_groups(
-                response, group, seed=prng))
-        hits = np.sum(dist >= observed_tst)
-        return thePvalue[alternative](hits / (reps+plus1)), observed_tst, dist
+        return thePvalue[alternative](pUp, pDn), observed_tst, dist
     else:
-        hits = np.sum([(tst_fun(permute_within_groups(
-            response, group, seed=prng)) >= observed_tst)
-            for i in range(reps)])
-        return thePvalue[alternative](hits / (reps+plus1)), observed_tst
+        return thePvalue[alternative](pUp, pDn), observed_tst
